@@ -406,6 +406,28 @@ func c19ReceiptDigests(r *Receipt, v2 bool, others []*Receipt) map[string]string
 	return map[string]string{"leaf": hex.EncodeToString(leaf), "root": c19Sha(roots)}
 }
 
+// plain dumps for the replay files (Receipt has a custom MarshalJSON that embeds Ret / JsonArgs as raw JSON)
+func c19DumpReceipt(r *Receipt) map[string]interface{} {
+	evs := []map[string]interface{}{}
+	for _, e := range r.Events {
+		evs = append(evs, map[string]interface{}{"ContractAddress": hex.EncodeToString(e.ContractAddress), "EventName": fmt.Sprintf("%q", e.EventName),
+			"JsonArgs": fmt.Sprintf("%q", e.JsonArgs), "EventIdx": e.EventIdx, "TxHash": hex.EncodeToString(e.TxHash), "BlockHash": hex.EncodeToString(e.BlockHash),
+			"BlockNo": e.BlockNo, "TxIndex": e.TxIndex})
+	}
+	return map[string]interface{}{"ContractAddress": hex.EncodeToString(r.ContractAddress), "Status": r.Status, "Ret": fmt.Sprintf("%q", r.Ret),
+		"TxHash": hex.EncodeToString(r.TxHash), "FeeUsed": hex.EncodeToString(r.FeeUsed), "CumulativeFeeUsed": hex.EncodeToString(r.CumulativeFeeUsed),
+		"Bloom": c19Sha(r.Bloom)[:16] + fmt.Sprintf("(sha256 of %d bytes)", len(r.Bloom)), "Events": evs, "BlockNo": r.BlockNo, "BlockHash": hex.EncodeToString(r.BlockHash),
+		"TxIndex": r.TxIndex, "From": hex.EncodeToString(r.From), "To": hex.EncodeToString(r.To), "FeeDelegation": r.FeeDelegation, "GasUsed": r.GasUsed}
+}
+
+func c19DumpReceipts(rs []*Receipt) []map[string]interface{} {
+	out := []map[string]interface{}{}
+	for _, r := range rs {
+		out = append(out, c19DumpReceipt(r))
+	}
+	return out
+}
+
 // c19PersistDiff names the first persisted field in which b (read back) differs from a (written); "" if none.
 func c19PersistDiff(a, b *Receipt, v2 bool) string {
 	switch {
@@ -742,7 +764,7 @@ func c19ReceiptCase(res *verifkit.Result, diverge map[string]int, m c19Mutation,
 	}
 	for _, x := range vs {
 		md := c19ReceiptDigests(x.r, v2, others)
-		c19Judge(res, diverge, m, x.style, bd, md, map[string]interface{}{"base": base, "mutant": x.r})
+		c19Judge(res, diverge, m, x.style, bd, md, map[string]interface{}{"base": c19DumpReceipt(base), "mutant": c19DumpReceipt(x.r)})
 		// what the commitment covers must survive storage: write and read the mutant.  The events of a receipt carry the
 		// receipt's own transaction hash (the node fills both from the same transaction; the readers restore it).
 		// CumulativeFeeUsed: nothing in the node sets it; the stored containers with that field set are examined by
@@ -763,7 +785,7 @@ func c19ReceiptCase(res *verifkit.Result, diverge map[string]int, m c19Mutation,
 		res.Count(fmt.Sprintf("mutstore|%v|%s|%s", m.Shape, m.Field, x.style))
 		if diff != "" {
 			c19Violate(res, map[string]interface{}{"kind": "roundtrip", "object": "receipts", "class": c19RoundTripClass(rs.receipts, diff)},
-				map[string]interface{}{"case": m, "style": x.style, "receipts": rs.receipts, "fmt": m.Shape.Fmt, "difference": diff},
+				map[string]interface{}{"case": m, "style": x.style, "receipts": c19DumpReceipts(rs.receipts), "fmt": m.Shape.Fmt, "difference": diff},
 				"receipts written and read back in format %s differ (%s) after changing %s (%s)", m.Shape.Fmt, diff, m.Field, x.style)
 		}
 	}
@@ -1001,7 +1023,7 @@ func c19RunCodec(in *c19Input, res *verifkit.Result, diverge map[string]int) {
 			res.Count(fmt.Sprintf("codec|%d", ci))
 			if diff != "" {
 				c19Violate(res, map[string]interface{}{"kind": "roundtrip", "object": "receipts", "class": c19RoundTripClass(rs, diff)},
-					map[string]interface{}{"case": c, "receipts": rs, "difference": diff},
+					map[string]interface{}{"case": c, "receipts": c19DumpReceipts(rs), "difference": diff},
 					"receipts container (format %s, block bloom %v, %d receipts) read back differs from what was written: %s", c.Fmt, c.Bloom, len(rs), diff)
 			}
 			if (diff == "") != c.Ok {
